@@ -3,11 +3,13 @@ package pgutil
 import (
 	"context"
 	"fmt"
+	"sync"
 
 	"github.com/specterops/dawgs/graph"
 )
 
 type InMemoryKindMapper struct {
+	lock       sync.RWMutex
 	nextKindID int16
 	KindToID   map[graph.Kind]int16
 	IDToKind   map[int16]graph.Kind
@@ -22,6 +24,9 @@ func NewInMemoryKindMapper() *InMemoryKindMapper {
 }
 
 func (s *InMemoryKindMapper) MapKindID(ctx context.Context, kindID int16) (graph.Kind, error) {
+	s.lock.RLock()
+	defer s.lock.RUnlock()
+
 	if kind, hasKind := s.IDToKind[kindID]; hasKind {
 		return kind, nil
 	}
@@ -44,6 +49,9 @@ func (s *InMemoryKindMapper) MapKindIDs(ctx context.Context, kindIDs []int16) (g
 }
 
 func (s *InMemoryKindMapper) MapKind(ctx context.Context, kind graph.Kind) (int16, error) {
+	s.lock.RLock()
+	defer s.lock.RUnlock()
+
 	if id, hasID := s.KindToID[kind]; hasID {
 		return id, nil
 	}
@@ -52,6 +60,9 @@ func (s *InMemoryKindMapper) MapKind(ctx context.Context, kind graph.Kind) (int1
 }
 
 func (s *InMemoryKindMapper) mapKinds(kinds graph.Kinds) ([]int16, graph.Kinds) {
+	s.lock.RLock()
+	defer s.lock.RUnlock()
+
 	var (
 		ids     = make([]int16, 0, len(kinds))
 		missing = make(graph.Kinds, 0, len(kinds))
@@ -87,6 +98,9 @@ func (s *InMemoryKindMapper) AssertKinds(ctx context.Context, kinds graph.Kinds)
 }
 
 func (s *InMemoryKindMapper) Put(kind graph.Kind) int16 {
+	s.lock.Lock()
+	defer s.lock.Unlock()
+
 	if kindID, ok := s.KindToID[kind]; ok {
 		return kindID
 	}
